@@ -68,7 +68,20 @@ def build(tier, workdir, seed):
         # all-properties mode on this build - a property reported FAILURE there verified on its own - so it is not used.)
         extra = {a: {'timeout': 2400, 'split': 6} for a in ('bsb__op_shl_assign__ul', 'bsb__op_shr_assign__ul', 'bvb__op_shl_assign__ul', 'bvb__op_shr_assign__ul')}
         jobs += u.contract_jobs(PROP, timeout=900, inline_all=True, extra=extra)
-    return {'jobs': jobs, 'units': units, 'trusted_base': sorted(set(sum([list(u.std.used) for u in units], []))), 'assumptions': [], 'coverage_extra': {}}
+    return {'jobs': jobs, 'units': units,
+            'trusted_base': sorted(set(sum([list(u.std.used) for u in units], []))) + [
+                'clang 14 AST; xtl2c lowering rules (DESIGN.md 3.2)',
+                'std::vector / std::fill model in model/xv_vec.h: C code with loop contracts, inlined and discharged inside every proof (not assumed); reallocation always yields a new block; pop_back/clear keep the block (capacity slack)'],
+            'assumptions': ['block count bounded by XV_MAXBLK = 10^6 blocks (heap storage model); every size below that bound, every bit index (ghost), every shift amount in size_t',
+                            'views are lowered with NDEBUG (span contract checks off, raw pointer semantics) so that an access outside the covered blocks is a pointer-obligation failure rather than a std::terminate',
+                            'preconditions taken from std::vector<bool>: pos < size() for set/reset/flip(pos) and operator[]; equal sizes for &= |= ^=; non-empty for front/back/pop_back',
+                            'existential answers (all() false, any() true, == false) are stated through a ghost witness block written by RET hooks',
+                            'count(): result == sum of per-byte population counts of the block array (ghost accumulator, independent bit-sum formula); with the zero-tail invariant this is the number of set valid bits',
+                            'induction over operation histories is the meta-argument: every operation is proved to preserve wf and to realise its abstract counterpart from any wf state'],
+            'coverage_extra': {'block_widths': [8] if tier == 'quick' else [8, 16, 32, 64], 'owners': ['xdynamic_bitset (vector)', 'xdynamic_bitset_view (span)'],
+                               'not_reached': ['operator<< / operator>> / operator~ / & | ^ returning temporaries (copy + in-place operation, both under contract separately)',
+                                               'initializer_list constructors/assign, block-iterator constructors/assign, swap, reserve/capacity/max_size/get_allocator',
+                                               'xbitset_iterator (decided under C12)', 'termination of views in non-NDEBUG builds (span contract checks call std::terminate)']}}
 
 
 SAN = ['-fsanitize=address,undefined', '-fno-sanitize=shift,null', '-fno-sanitize-recover=all', '-O1']
